@@ -204,7 +204,7 @@ def items_and_series(ctx: Ctx) -> None:
     # ---- Frame.from_concat_items
     f = prog.method('Frame', 'from_concat_items', inherited=False)
     items_p = f.params[1] if len(f.params) > 1 else 'items'
-    gens = [nf for nf in f.nested if nf.is_generator and any(isinstance(n, ast.For) and norm(n.iter) == items_p for n in walk_local(nf.node))]
+    gens = [nf for nf in f.nested if nf.is_generator() and any(isinstance(n, ast.For) and norm(n.iter) == items_p for n in walk_local(nf.node))]
     ctx.require(len(gens) == 1, 'Frame.from_concat_items defines one generator over items')
     g = gens[0]
     lp = [n for n in walk_local(g.node) if isinstance(n, ast.For) and norm(n.iter) == items_p][0]
@@ -275,7 +275,7 @@ def items_and_series(ctx: Ctx) -> None:
     # ---- Series.from_concat_items
     s = prog.method('Series', 'from_concat_items', inherited=False)
     items_p = s.params[1] if len(s.params) > 1 else 'items'
-    gens = [nf for nf in s.nested if nf.is_generator and any(isinstance(n, ast.For) and norm(n.iter) == items_p for n in walk_local(nf.node))]
+    gens = [nf for nf in s.nested if nf.is_generator() and any(isinstance(n, ast.For) and norm(n.iter) == items_p for n in walk_local(nf.node))]
     problems = []
     if len(gens) != 1:
         problems.append('no single generator over items')
